@@ -77,6 +77,7 @@ package ecs
 //@ func (*table).Column
 //@   serves C01
 //@   dataplane
+//@   ensures  nonnil: result != nil
 //@   modifies nothing
 
 //@ func (*table).Set
@@ -152,3 +153,69 @@ package ecs
 
 
 //@ spec func s0len(w *World, t tableID) uint32 := w.storage.tables[t].len
+//@ spec func ntables(w *World) int := len(w.storage.tables)
+
+// ---- batch exchange (C06, C09) -----------------------------------------------------------------
+
+//@ func (*table).AddAllEntities
+//@   serves C06 C01
+//@   dataplane
+//@   requires uint64(t.len) + uint64(count) < 1<<31 && t.len <= t.cap && count <= from.len
+//@   ensures  len: t.len == old(t.len) + count && t.len <= t.cap
+//@   ensures  moved: forall r uint32 :: __trigger(rowEnt(t)[r]) && (old(t.len) <= r && r < t.len ==> rowEnt(t)[r] == old(rowEnt(from)[r - t.len]))
+//@   ensures  kept: forall r uint32 :: __trigger(rowEnt(t)[r]) && (r < old(t.len) ==> rowEnt(t)[r] == old(rowEnt(t)[r]))
+//@   modifies t.len, t.cap, rowEnt(t)[*], t.entities.pointer, t.entities.data, t.columns[*].pointer, t.columns[*].data
+
+//@ func (*column).CopyToEnd
+//@   serves C06 C01 C11
+//@   dataplane
+//@   modifies nothing
+
+//@ func (*table).Reset
+//@   serves C06 C01 C11 C16
+//@   dataplane
+//@   ensures  empty: t.len == 0 && t.cap == old(t.cap)
+//@   modifies t.len
+
+// exchangeTable moves all rows of one table to the end of another: it returns where they start
+// and how many they are, every moved entity's index entry names its new row, the source table is
+// empty afterwards, nothing else moves.
+//@ func (*World).exchangeTable
+//@   serves C06 C09 C01
+//@   requires tablesIdent(&w.storage) && uint64(oldTableID) < uint64(len(w.storage.tables)) && uint64(newTableID) < uint64(len(w.storage.tables)) && oldTableID != newTableID
+//@   requires uint64(w.storage.tables[oldTableID].archetype) < uint64(len(w.storage.archetypes)) && uint64(w.storage.tables[newTableID].archetype) < uint64(len(w.storage.archetypes))
+//@   requires w.storage.archetypes[w.storage.tables[oldTableID].archetype].archetypeData != nil
+//@   requires w.storage.tables[oldTableID].len <= w.storage.tables[oldTableID].cap && w.storage.tables[newTableID].len <= w.storage.tables[newTableID].cap
+//@   requires uint64(w.storage.tables[oldTableID].len) + uint64(w.storage.tables[newTableID].len) < 1<<31
+//@   requires forall r uint32 :: __trigger(rowEnt(&w.storage.tables[oldTableID])[r]) && (r < w.storage.tables[oldTableID].len ==> uint64(rowEnt(&w.storage.tables[oldTableID])[r].id) < uint64(len(w.storage.entities)))
+//@   requires forall k int :: __trigger(relations[k].target) && (0 <= k && k < len(relations) ==> uint64(relations[k].target.id) < uint64(len(w.storage.isTarget)))
+//@   requires forall r uint32 :: __trigger(rowEnt(&w.storage.tables[oldTableID])[r]) && (r < w.storage.tables[oldTableID].len ==> w.storage.entities[rowEnt(&w.storage.tables[oldTableID])[r].id].table == oldTableID && w.storage.entities[rowEnt(&w.storage.tables[oldTableID])[r].id].row == r)
+//@   loop 1 invariant todo: forall r uint32 :: __trigger(rowEnt(&w.storage.tables[oldTableID])[r]) && (uint32(__idx) <= r && r < w.storage.tables[oldTableID].len ==> w.storage.entities[rowEnt(&w.storage.tables[oldTableID])[r].id].table == oldTableID && w.storage.entities[rowEnt(&w.storage.tables[oldTableID])[r].id].row == r)
+//@   loop 1 invariant lens: len(w.storage.entities) == old(len(w.storage.entities)) && len(w.storage.tables) == old(len(w.storage.tables))
+//@   loop 1 invariant done: forall r uint32 :: __trigger(rowEnt(&w.storage.tables[oldTableID])[r]) && (r < uint32(__idx) ==> w.storage.entities[rowEnt(&w.storage.tables[oldTableID])[r].id].table == newTableID && w.storage.entities[rowEnt(&w.storage.tables[oldTableID])[r].id].row == old(w.storage.tables[newTableID].len) + r)
+//@   ensures  result: result0 == old(w.storage.tables[newTableID].len) && result1 == old(w.storage.tables[oldTableID].len)
+//@   ensures  lens: w.storage.tables[newTableID].len == result0 + result1 && w.storage.tables[oldTableID].len == 0 && len(w.storage.tables) == old(len(w.storage.tables))
+//@   ensures  moved: forall r uint32 :: __trigger(rowEnt(&w.storage.tables[newTableID])[result0 + r]) && (r < result1 ==> rowEnt(&w.storage.tables[newTableID])[result0 + r] == old(rowEnt(&w.storage.tables[oldTableID])[r]))
+//@   ensures  index: forall r uint32 :: __trigger(old(rowEnt(&w.storage.tables[oldTableID])[r])) && (r < result1 ==> w.storage.entities[old(rowEnt(&w.storage.tables[oldTableID])[r]).id].table == newTableID && w.storage.entities[old(rowEnt(&w.storage.tables[oldTableID])[r]).id].row == result0 + r)
+//@   ensures  kept: forall r uint32 :: __trigger(rowEnt(&w.storage.tables[newTableID])[r]) && (r < result0 ==> rowEnt(&w.storage.tables[newTableID])[r] == old(rowEnt(&w.storage.tables[newTableID])[r]))
+//@   ensures  others: forall t uint32, r uint32 :: __trigger(rowEnt(&w.storage.tables[t])[r]) && (uint64(t) < uint64(len(w.storage.tables)) && tableID(t) != oldTableID && tableID(t) != newTableID ==> rowEnt(&w.storage.tables[t])[r] == old(rowEnt(&w.storage.tables[t])[r]) && w.storage.tables[t].len == old(w.storage.tables[t].len))
+
+// The selection of a batch (registered or not) is trusted here; getCacheTables, which fills the
+// registered selection, is under contract in verif_contracts_cachetables.go.
+//@ func (*storage).getBatchTables
+//@   serves C06
+//@   trusted
+//@   ensures  valid: forall k int :: __trigger(result[k]) && (0 <= k && k < len(result) ==> uint64(result[k]) < uint64(len(s.tables)))
+//@   ensures  distinct: forall i int, j int :: 0 <= i && i < j && j < len(result) ==> result[i] != result[j]
+//@   modifies nothing
+
+// exchangeBatch (C06: "its callback runs exactly once per affected entity ... with that entity's
+// components"; C09): the rows handed to the callback for a batch entry are exactly the rows the
+// entry's move has just appended to the destination table, i.e. the last `len` rows of it.
+//@ func (*World).exchangeBatch
+//@   serves C06 C09
+//@   maypanic
+//@   lockedcallbacks
+//@   requires batch != nil && tablesIdent(&w.storage) && indexInv(&w.storage)
+//@   requires w.storage.observers != nil && obsShape(w.storage.observers) && lockInv(&w.storage.locks) && w.storage.locks.locks.bits != 0xffffffffffffffff
+//@   assert   fn rows: uint64(__arg0) < uint64(ntables(w)) && uint64(__arg1) + uint64(__arg2) == uint64(s0len(w, __arg0))
